@@ -180,12 +180,12 @@ def mesh_scenario(rng: random.Random, full: bool = False):
     return mesh, clamps, links, preds, scale
 
 
-def sketch_scenario(rng: random.Random):
+def sketch_scenario(rng: random.Random, force=None):
     import classy_blocks as cb
     import numpy as np
 
     point, vector, scale = similarity(rng)
-    if rng.random() < 0.4:
+    if (rng.random() < 0.4) if force is None else force == "library":
         # the library's own mapped sketches (quarter, half and whole spline disks - the merged ones list their faces in another
         # order than their grid): every inner point on a plane clamp, the outline free of clamps
         from classy_blocks.construct.flat.sketches.spline_round import HalfSplineDisk, QuarterSplineDisk, SplineDisk
@@ -220,7 +220,7 @@ def sketch_scenario(rng: random.Random):
     clamps, preds = [], []
     interior = [i + (n + 1) * j for j in range(1, n) for i in range(1, n)]
     links = []
-    if rng.random() < 0.5:
+    if (rng.random() < 0.5) if force is None else force == "symmetry":
         # a pair of interior points mirrored in the plane x = 1.5 (given by a NON-unit normal): the left one is clamped,
         # the right one follows through a SymmetryLink
         lead, follow = 1 + (n + 1) * 1, 2 + (n + 1) * 1
@@ -238,7 +238,7 @@ def sketch_scenario(rng: random.Random):
     return sketch, clamps, links, preds, scale
 
 
-def run_one(ctx: Ctx, rid: int, rng: random.Random, kind: str, mode: str, full: bool = False, rotation: bool = False):
+def run_one(ctx: Ctx, rid: int, rng: random.Random, kind: str, mode: str, full: bool = False, rotation: bool = False, sketch_kind=None):
     import numpy as np
     import classy_blocks as cb
     from classy_blocks.optimize import optimizer as optmod
@@ -247,7 +247,7 @@ def run_one(ctx: Ctx, rid: int, rng: random.Random, kind: str, mode: str, full: 
         obj, clamps, links, preds, scale = rotation_scenario(rng, rotation if isinstance(rotation, tuple) else (None, None)) if rotation else mesh_scenario(rng, full)
         opt = cb.MeshOptimizer(obj, report=False)
     else:
-        obj, clamps, links, preds, scale = sketch_scenario(rng)
+        obj, clamps, links, preds, scale = sketch_scenario(rng, sketch_kind)
         opt = cb.SketchOptimizer(obj, report=False)
     for c in clamps:
         opt.add_clamp(c)
@@ -434,7 +434,9 @@ def run(ctx: Ctx) -> None:
         # the second round of the four modes uses the rotation scenario (RadialClamp + RotationLinks) for its mesh runs
         # (the two rotation runs with the real minimiser: travel bounded, axis shorter / longer than 1)
         rotation = {8: (True, True), 16: (True, False)}.get(i, 8 <= i < 16 or i % 5 == 4)
-        rec = run_one(ctx, len(recs) + 1, rng, kind, mode, full=i < 8, rotation=rotation)
+        # (sketch runs: library spline disks, a symmetry link, a plain grid of plane clamps - in turn, so that each meets
+        #  the real minimiser and every scripted one)
+        rec = run_one(ctx, len(recs) + 1, rng, kind, mode, full=i < 8, rotation=rotation, sketch_kind=["library", "symmetry", "plain"][(i // 2) % 3])
         if rec is not None:
             recs.append(rec)
     if not recs:
